@@ -11,7 +11,7 @@ Contract file format (line oriented; everything up to the next `@@` line is the 
   @@@ spec                             requires/ensures/decreases between signature and body
   @@@ head                             ghost text right after the body's opening brace
   @@@ loop <k>                         invariant/decreases for the k-th loop of the fn (1-based)
-  @@@ loopbody <k> / afterloop <k>     ghost text at the start of / right after the k-th loop
+  @@@ loopbody <k> / loopend <k> / afterloop <k>   ghost text at the start of / at the end of the body of / right after the k-th loop
   @@@ before <anchor>                  ghost text before the statement starting with <anchor>
   @@@ after <anchor>                   ghost text after the statement/line containing <anchor>
   @@@ itemhead                         text right after the item's opening brace (spec members)
@@ -152,7 +152,7 @@ def apply_fn_sections(s, fnsec, item_lo, item_hi, log, copies):
             while s[j - 1] in ' \t\n':
                 j -= 1
             s = s[:j] + '\n' + txt + s[lb:]
-        elif sub.kind in ('loopbody', 'afterloop'):
+        elif sub.kind in ('loopbody', 'afterloop', 'loopend'):
             ls_ = loops(s, m, bo, bc)
             k = int(sub.arg)
             if k < 1 or k > len(ls_):
@@ -160,6 +160,9 @@ def apply_fn_sections(s, fnsec, item_lo, item_hi, log, copies):
             kw, lb = ls_[k - 1]
             if sub.kind == 'loopbody':
                 s = s[:lb + 1] + '\n' + txt + s[lb + 1:]
+            elif sub.kind == 'loopend':
+                le = match_close(s, m, lb)
+                s = s[:le] + txt + s[le:]
             else:
                 le = match_close(s, m, lb)
                 s = s[:le + 1] + '\n' + txt + s[le + 1:]
